@@ -3,7 +3,7 @@ from __future__ import annotations
 
 from typing import Callable, Dict, Optional
 
-from .rules import alias, align, dispatch, ops, opt, pyx, reg, repres, sig, small, wrappers
+from .rules import alias, align, dispatch, keys, ops, opt, pyx, reg, repres, sig, small, wrappers
 
 _CACHE: Dict[str, object] = {}
 
@@ -29,6 +29,8 @@ RULES: Dict[str, Callable] = {
     "R-OPT-PINNED": _cached("R-OPT-PINNED", opt.run_pinned),
     "R-ALIGN": _cached("R-ALIGN", align.run),
     "R-ALIAS": _cached("R-ALIAS", alias.run),
+    "R-KEYS": _cached("R-KEYS", keys.run),
+    "R-CAST": _cached("R-CAST", keys.run_cast),
     "R-DELEGATE": _cached("R-DELEGATE", wrappers.run_delegate),
     "R-ORDER": _cached("R-ORDER", wrappers.run_order),
     "R-FWD": _cached("R-FWD", wrappers.run_fwd),
@@ -93,7 +95,7 @@ PLAN: Dict[str, dict] = {
         "not_decided": "",
     },
     "C12": {
-        "uses": [Use("R-PYX-DISCARD"), Use("R-PYX-DTYPE")],
+        "uses": [Use("R-PYX-DISCARD"), Use("R-PYX-DTYPE"), Use("R-KEYS"), Use("R-CAST")],
         "explanation": "x",
         "not_decided": "",
     },
